@@ -37,6 +37,7 @@ class Profile:
     writable_all_bias: int = 3  # of 4 draws, how many make everybody writable
     p_logger: int = 5  # 1 in p_logger connects is a logger
     clash_ids: bool = False  # may request ids that collide / are out of range
+    clash_extra: tuple = (100, 101, 199, 200, -1, 32767)  # requested ids besides 0, the static ids and ids held by live modules
     dyn_ratio: int = 3  # 1 in dyn_ratio connects asks for a dynamic id
     pipelining: bool = True
     max_pending_pubs: int = 6
@@ -129,7 +130,7 @@ def resolve(w: World, raw, pf: Profile) -> Optional[dict]:
         m = fresh[a % len(fresh)]
         held = [x.mod_id for x in w.mods if x.tracked and x.mod_id > 0]
         if pf.clash_ids:
-            pool = [0] + pf.static_ids + held[:3] + [100, 101, 199, 200, -1, 32767]
+            pool = [0] + pf.static_ids + held[:3] + list(pf.clash_extra)
             rid = pool[b % len(pool)]
         else:
             if pf.allow_dynamic and b % pf.dyn_ratio == 0:
@@ -154,8 +155,12 @@ def resolve(w: World, raw, pf: Profile) -> Optional[dict]:
         m.h_connect = True
         m.h_dynamic = rid == 0
         m.h_id = rid
-        return {"op": "connect", "c": m.idx, "ver": ver, "id": rid, "logger": logger, "daemon": daemon,
-                "multi": multi, "name": name, "pid": 1000 + m.idx}
+        op = {"op": "connect", "c": m.idx, "ver": ver, "id": rid, "logger": logger, "daemon": daemon,
+              "multi": multi, "name": name, "pid": 1000 + m.idx}
+        if ver != "v1" and e % 6 == 5:
+            # CONNECT_V2 names the requested id in its body; a foreign client may put anything into the header's source field
+            op["hsrc"] = [0, 7, 150, 42, -1, 99][(e // 6) % 6]
+        return op
     if code == SUB and pf.preconnect_subs and e % pf.preconnect_subs == 1:
         # a raw client may send subscription requests before it sends CONNECT (module id 0 until then)
         fresh = [m for m in w.mods if not m.client_closed and not getattr(m, "h_connect", False) and not m.conn.manager_closed]
@@ -196,6 +201,11 @@ def resolve(w: World, raw, pf: Profile) -> Optional[dict]:
                 hs = w.sim.hsize
                 op["seg"] = [1, hs - 1, hs, hs + 1, hs + max(size // 2, 1), 4][(e // 256) % 6]
             return op
+        if code == BURST:
+            # many distinct message types from one sender within one statistics interval
+            if not m.connected or m.queue:
+                return None
+            return {"op": "storm", "c": m.idx, "n": [66, 70, 130, 65][b % 4], "base": 20000 + (c % 40) * 200, "src": m.mod_id}
         if code == READY:
             return {"op": "ready", "c": m.idx, "pid": 2000 + (b % 50)}
         if code == SETNAME:
